@@ -4,6 +4,7 @@
    standalone properties (C01, C09, ...) are stated about. *)
 Require Import Base.Bytes Base.GoInt Base.Reply Mem.Types Mem.Exec.
 Require Import Cluster.ClusterEnc Cluster.ClusterEncProofs.
+Require Import Cluster.ApplyLoop Cluster.ApplyLoopProofs.
 
 (* --- the encoding of the pinned commit (join with spaces, JSON string, split on spaces) is
    not transparent: an argument with a space comes back as two arguments, a byte that is not
@@ -68,6 +69,32 @@ Theorem C14_log_carries_unaltered : forall (props : list (list bytes * bytes)) (
                 option_map decode_proposal (nth_error delivered i) = Some (Some p).
 Proof. exact log_carries_unaltered. Qed.
 Print Assumptions C14_log_carries_unaltered.
+
+(* "The same reply" in a cluster of several nodes: replies are routed by (origin node, id).  [cb] is
+   the callback table of the node a connection talks to, [cs] the commands of the ONE shared log,
+   proposed on any node.  If the proposal ids are unique in the whole log -- across nodes, not only
+   per node -- the connection registered under [id] is answered by the entry of its own command,
+   with the reply computed for that command at its log position, and by no other entry: what other
+   nodes proposed carries other ids and never answers a local waiter.  (Premise checked on every
+   run: two Managers fed from one log, hook VerifClusterLoopbackNodes; C14_ex_misrouted shows a
+   per-node counter breaking it.) *)
+Theorem C14_reply_routed_by_origin :
+  forall (step : db -> env -> list bytes -> reply * db) cb cs d envs i id args e c,
+    NoDup (map fst cs) -> NoDup (map fst cb) -> In (id, c) cb ->
+    List.length envs = List.length cs ->
+    nth_error cs i = Some (id, args) -> nth_error envs i = Some e ->
+    nth_error (fst (apply_cmds step cb d envs cs)) i =
+      Some (mkDel (Some c) id (fst (step (state_at step d envs cs i) e args))) /\
+    (forall j dl, j <> i -> nth_error (fst (apply_cmds step cb d envs cs)) j = Some dl -> did dl <> id).
+Proof. exact reply_routed_by_origin. Qed.
+Print Assumptions C14_reply_routed_by_origin.
+
+Example C14_ex_misrouted :
+  let cs := [(B "1", [B "PING"]); (B "1", [B "INCR"; B "n"])] in
+  let cbA := [(B "1", 7%Z)] in
+  map (fun dl => (dconn dl, dreply dl)) (fst (apply_cmds exec_step cbA empty_db [(0, 0, RNil); (0, 0, RNil)]%Z cs))
+  = [(Some 7%Z, RSimple (B "PONG")); (Some 7%Z, RInt 1)].
+Proof. exact per_node_counter_misroutes. Qed.
 
 (* What the filter refuses is exactly PUBLISH and SUBSCRIBE (in any letter case) -- the
    documented restriction "does not support pub/sub in cluster mode yet" -- and what it lets
